@@ -158,6 +158,8 @@ def project_vectorized(ctx):
     # scalar (non-vectorised) projection: same accumulation statement, affine point map by barycentric formula
     fn3 = m.fn("_project_function")
     ok3, why3 = _scalar_projection_shape(fn3)
+    if ok3 is None:
+        raise AnalysisError("_project_function: construction not recognised: " + why3)
     r.check(ok3, "_project_function", GF, fn3.name, fn3.lineno, "scalar projection kernel shape", why3)
 
 
@@ -167,11 +169,11 @@ def _scalar_projection_shape(fn):
     defs = roles.Defs(fn)
     P = dict(zip(("FUN", "G", "SUP", "L2G", "LM", "NM", "EV", "SE", "PTS", "W", "CD", "PROJ", "FP"), arg_names(fn)))
     if len(P) != 13:
-        return False, "unexpected signature"
+        return None, "unexpected signature"
     S = roles.stores(fn.body, defs, lv=False)
     acc = [s for s in S if s.op == "Add=" and isinstance(s.tnode, ast.Subscript) and unparse(s.tnode.value) == P["PROJ"]]
     if len(acc) != 1 or len(acc[0].loops) != 2 or acc[0].guards:
-        return False, "no single unguarded `projections[...] += ...` inside (element loop, local function loop)"
+        return None, "no single unguarded `projections[...] += ...` inside (element loop, local function loop)"
     a = acc[0]
     lE, lF = a.loops
     if not (isinstance(lE.target, ast.Name) and isinstance(lF.target, ast.Name)) or roles.canon(lE.iter, defs) != P["SUP"]:
@@ -183,7 +185,7 @@ def _scalar_projection_shape(fn):
         return False, "the local-function loop does not cover every shape function of the evaluated basis"
     calls = [s for s in S if s.op == "call" and isinstance(s.vnode.func, ast.Name) and s.vnode.func.id == P["FUN"]]
     if len(calls) != 1 or len(calls[0].loops) != 2 or calls[0].loops[0] is not lE or len(calls[0].vnode.args) != 5:
-        return False, "the user callable is not called once per (element, quadrature point) with 5 arguments"
+        return None, "the user callable is not called once per (element, quadrature point) with 5 arguments"
     c = calls[0]
     Q = c.loops[1].target.id if isinstance(c.loops[1].target, ast.Name) else None
     out = c.vnode.args[3]
@@ -202,7 +204,7 @@ def _scalar_projection_shape(fn):
         return False, "the callable receives (normal, domain index, out, parameters) = %s" % [g[:50] for g in got_args]
     gp = [s for s in S if isinstance(s.tnode, ast.Subscript) and unparse(s.tnode.value) == GP]
     if len(gp) != 1 or len(gp[0].loops) != 2 or gp[0].loops[0] is not lE or not isinstance(gp[0].loops[1].target, ast.Name):
-        return False, "mapped points are not filled once per element, row by row"
+        return None, "mapped points are not filled once per element, row by row"
     J = gp[0].loops[1].target.id
     aff = "(1.0 - PTS[0] - PTS[1]) * G.vertices[J, G.elements[0, E]] + PTS[0] * G.vertices[J, G.elements[1, E]] + PTS[1] * G.vertices[J, G.elements[2, E]]"
     if gp[0].target != ex("GP[J]", gp[0].node.lineno, GP=GP, J=J) or gp[0].value != ex(aff, gp[0].node.lineno, J=J) or roles.canon(gp[0].loops[1].iter, defs) != "range(3)":
@@ -303,6 +305,8 @@ def evaluate_rules(ctx):
     r.check(okc, "evaluate_on_element_centers", GF, fc.name, fc.lineno, "element centre evaluation", whyc)
     fv = m.fn("GridFunction.evaluate_on_vertices")
     okv, whyv = _vertex_average_shape(fv)
+    if okv is None:
+        raise AnalysisError("evaluate_on_vertices: construction not recognised: " + whyv)
     r.check(okv, "evaluate_on_vertices", GF, fv.name, fv.lineno, "vertex evaluation", whyv)
 
 
@@ -338,15 +342,15 @@ def _vertex_average_shape(fv):
     S = roles.stores(fv.body, d, lv=False)
     rets = [s for s in S if s.op == "return"]
     if len(rets) != 1 or not isinstance(rets[0].vnode, ast.Name):
-        return False, "does not return one local array"
+        return None, "does not return one local array"
     VAL = rets[0].vnode.id
     acc = [s for s in S if s.op == "Add=" and isinstance(s.tnode, ast.Subscript) and unparse(s.tnode.value) == VAL]
     if len(acc) != 1 or len(acc[0].loops) != 2 or acc[0].guards:
-        return False, "no single accumulation `values[:, vertex] += ...` inside (element loop, local vertex loop)"
+        return None, "no single accumulation `values[:, vertex] += ...` inside (element loop, local vertex loop)"
     a = acc[0]
     lE, lI = a.loops
     if not (isinstance(lE.target, ast.Name) and isinstance(lI.target, ast.Name)):
-        return False, "loop targets are not plain names"
+        return None, "loop targets are not plain names"
     E, I = lE.target.id, lI.target.id
     ln = a.node.lineno
     if roles.canon(lE.iter, d) != "self.space.support_elements" or roles.canon(lI.iter, d) != "range(3)":
@@ -373,11 +377,11 @@ def _vertex_average_shape(fv):
         return False, "vertex values are not evaluate(element, reference vertices (0,0),(1,0),(0,1)) (points %s)" % (tab,)
     div = [s for s in S if s.op == "Div=" and isinstance(s.tnode, ast.Subscript) and unparse(s.tnode.value) == VAL and not s.loops]
     if len(div) != 1 or div[0].node.lineno < lE.lineno:
-        return False, "values are not divided by the accumulated areas after the loop"
+        return None, "values are not divided by the accumulated areas after the loop"
     msk = div[0].tnode.slice.elts[1] if isinstance(div[0].tnode.slice, ast.Tuple) and len(div[0].tnode.slice.elts) == 2 else None
     dv = div[0].vnode
     if msk is None or not (isinstance(dv, ast.Subscript) and isinstance(dv.value, ast.Name) and unparse(dv.slice) == unparse(msk)):
-        return False, "the final division is not values[:, m] /= areas[m] on one mask m"
+        return None, "the final division is not values[:, m] /= areas[m] on one mask m"
     A_ = dv.value.id
     # the divisor: per vertex the sum of the areas of exactly the elements that contributed a value
     wts = [s for s in S if s.op == "Add=" and isinstance(s.tnode, ast.Subscript) and unparse(s.tnode.value) == A_]
